@@ -30,6 +30,11 @@ pub fn install_panic_hook() {
             .map(|l| {
                 let f = l.file().trim_start_matches("/repo/");
                 // registry crates: keep `<crate>-<version>/src/...`
+                // generated code lives in the build's OUT_DIR
+                let f = match f.find("/out/") {
+                    Some(i) if f.contains("/build/pilota-sim-") => &f[i + 5..],
+                    _ => f,
+                };
                 let f = match f.find("/registry/src/") {
                     Some(i) => f[i + 14..].splitn(2, '/').nth(1).unwrap_or(f),
                     None => f,
